@@ -771,7 +771,42 @@ func genKinesis(r *hx.Rand, tier string) *hx.Case {
 	return &hx.Case{Name: "kinesis", Params: map[string]any{"mode": "kinesis", "runners": r.Range(1, 4), "shards": r.Range(1, 4)}, Ops: ops}
 }
 
-func execKinesis(c *hx.Case) (*hx.Result, error) {
+// transient marks a failure of the local HTTP plumbing between the AWS SDK and kinesisfake (seen under
+// heavy machine load: "use of closed network connection" while reading a 200 response); the case is then
+// executed again from scratch on a fresh stream.
+type transient struct{ err string }
+
+func isTransient(msg string) bool {
+	return strings.Contains(msg, "use of closed network connection") || strings.Contains(msg, "connection reset") ||
+		strings.Contains(msg, "EOF") || strings.Contains(msg, "broken pipe")
+}
+
+func execKinesis(c *hx.Case) (res *hx.Result, err error) {
+	for attempt := 0; ; attempt++ {
+		retry := false
+		func() {
+			defer func() {
+				if p := recover(); p != nil {
+					msg := fmt.Sprint(p)
+					if t, ok := p.(transient); ok {
+						msg = t.err
+					}
+					if attempt < 4 && isTransient(msg) {
+						retry = true
+						return
+					}
+					panic(p)
+				}
+			}()
+			res, err = execKinesisOnce(c)
+		}()
+		if !retry {
+			return res, err
+		}
+	}
+}
+
+func execKinesisOnce(c *hx.Case) (*hx.Result, error) {
 	nr := pint(c, "runners", 2)
 	nshards := pint(c, "shards", 2)
 	fakeOnce.Do(func() {
@@ -887,8 +922,10 @@ func execKinesis(c *hx.Case) (*hx.Result, error) {
 	var sp *kinesis.SourceSplitter
 	var pk *park
 	var tickCh chan time.Time
+	var errCh chan error
 	start := func(ck *snapshotpb.SourceCheckpoint) {
-		sp = kinesis.NewSourceSplitter(cfg, runners, hooks, make(chan error, 4))
+		errCh = make(chan error, 4)
+		sp = kinesis.NewSourceSplitter(cfg, runners, hooks, errCh)
 		pk = &park{parked: make(chan struct{}), release: make(chan struct{})}
 		parks.Store(sp, pk)
 		must(sp.Start(ck))
@@ -903,7 +940,15 @@ func execKinesis(c *hx.Case) (*hx.Result, error) {
 	}
 	round := func() {
 		pk.release <- struct{}{}
-		<-pk.parked
+		select {
+		case <-pk.parked:
+		case e := <-errCh:
+			// the assignment goroutine has given up after a failed ListShards
+			parks.Delete(sp)
+			panic(transient{e.Error()})
+		case <-time.After(20 * time.Second):
+			panic("kinesis splitter: assignment round did not finish")
+		}
 	}
 
 	refresh()
